@@ -382,15 +382,15 @@ package fsm
 //@   results resp, err
 //@   requires ctx != nil && del != nil && ctx.batch != nil && ctx.db != nil && ctx.batch.bdb == ctx.db && ctx.batch != ctx.db
 //@   before pebble.(*Batch).DeleteRange assert isW(end) ==> bytesOf(end) == Wb()
-//@   ensures [C01.del.single] err == nil && isNilSlice(del.RangeEnd) ==> forall k Bytes :: ctx.batch.vP[k] == (k == encK(1, bytesOf(del.Key)) ? false : old(ctx.batch.vP[k]))
+//@   ensures [C01.del.single+C03] err == nil && isNilSlice(del.RangeEnd) ==> forall k Bytes :: ctx.batch.vP[k] == (k == encK(1, bytesOf(del.Key)) ? false : old(ctx.batch.vP[k]))
 //@   ensures [C01.del.range+C12]  err == nil && !isNilSlice(del.RangeEnd) ==> forall k Bytes :: ctx.batch.vP[k] == (inRange(k, encK(1, bytesOf(del.Key)), (isWildcard(del.RangeEnd) ? Wb() : encK(1, bytesOf(del.RangeEnd)))) ? false : old(ctx.batch.vP[k]))
-//@   ensures [C01.del.values] err == nil ==> forall k Bytes :: ctx.batch.vP[k] ==> ctx.batch.vV[k] == old(ctx.batch.vV[k])
+//@   ensures [C01.del.values+C03] err == nil ==> forall k Bytes :: ctx.batch.vP[k] ==> ctx.batch.vV[k] == old(ctx.batch.vV[k])
 //@   ensures [C01.del.count1] err == nil && isNilSlice(del.RangeEnd) && (del.Count || del.PrevKv) ==> resp != nil && resp.Deleted == (old(ctx.batch.vP[encK(1, bytesOf(del.Key))]) ? 1 : 0)
 //@   ensures [C01.del.countN] err == nil && !isNilSlice(del.RangeEnd) && del.Count && !del.PrevKv ==> resp != nil && resp.Deleted == cnt(old(ctx.batch.vP), encK(1, bytesOf(del.Key)), (isWildcard(del.RangeEnd) ? Wb() : encK(1, bytesOf(del.RangeEnd))))
 //@   ensures [C01.del.prevN]  err == nil && !isNilSlice(del.RangeEnd) && del.PrevKv ==> resp != nil && resp.Deleted == cnt(old(ctx.batch.vP), encK(1, bytesOf(del.Key)), (isWildcard(del.RangeEnd) ? Wb() : encK(1, bytesOf(del.RangeEnd))))
 //@   ensures [C01.del.prevN.pairs] err == nil && !isNilSlice(del.RangeEnd) && del.PrevKv ==> resp != nil && len(resp.PrevKvs) == resp.Deleted      // previous pairs are returned whenever asked for, also together with the count flag
 //@   ensures [C01.del.nocount] err == nil && !(del.Count || del.PrevKv) ==> resp != nil && resp.Deleted == 0 && len(resp.PrevKvs) == 0
-//@   ensures [C01.del.book+C12]   err == nil ==> bookSame(ctx.batch.vP, ctx.batch.vV, old(ctx.batch.vP), old(ctx.batch.vV))
+//@   ensures [C01.del.book+C03+C12]   err == nil ==> bookSame(ctx.batch.vP, ctx.batch.vV, old(ctx.batch.vP), old(ctx.batch.vV))
 //@   ensures ctx.index == old(ctx.index) && ctx.leaderIndex == old(ctx.leaderIndex) && ctx.db == old(ctx.db)
 //@   ensures (ctx.batch == old(ctx.batch) || fresh(ctx.batch)) && ctx.batch != ctx.db && (err == nil ==> ctx.batch != nil && ctx.batch.bdb == ctx.db)
 //@   modifies ctx.batch, ctx.batch.vP, ctx.batch.vV
@@ -576,6 +576,44 @@ package fsm
 //@   loop 0 step [C07.capture.user]  userKey(prev(iter.cur)) ==> w.nmsg == prev(w.nmsg) + 1 && w.msg[prev(w.nmsg)] == putCmd(bytesOf(tableName), btail(prev(iter.cur), 5), iter.vV[prev(iter.cur)])
 //@   loop 0 step [C07.capture.other] !userKey(prev(iter.cur)) ==> w.nmsg == prev(w.nmsg)
 
+// iterate (the constructor of the lazily consumed stream): the stream it returns reads THIS reader
+// for THIS request (ghost tags on the closure object; the closure captures exactly these - ghost
+// assignment), bounds come from the request's key and range end
+//@ ghostfield any.sreader Iface
+//@ ghostfield any.sreq Ref
+//@ func iterFuncsFromReq
+//@   assumed
+//@   modifies nothing
+//@ func iterate
+//@   results seq, err
+//@   requires reader != nil && req != nil
+//@   before iterOptionsForBounds assert [C09.iterate.bounds] sameSlice(low, req.Key) && sameSlice(high, req.RangeEnd)
+//@   ghostset seq.sreader = reader
+//@   ghostset seq.sreq = req
+//@   ensures [C09.iterate.stream] err == nil ==> seq != nil && seq.sreader == reader && seq.sreq == req
+//@   modifies nothing
+//@ func iter.From[*regattapb.ResponseOp_Range]
+//@   assumed
+//@   ensures result != nil && fresh(result)
+//@   modifies nothing
+//@ func iter.First[*regattapb.ResponseOp_Range]
+//@   assumed
+//@   modifies nothing
+// the dispatcher of streamed reads: a request with a range end gets the whole lazily evaluated
+// stream (never just its first chunk); only a single-key read is answered by a one-element stream
+//@ func iteratorLookup#dispatch
+//@   results seq, err
+//@   requires reader != nil && req != nil
+//@   before iter.From[*regattapb.ResponseOp_Range] assert [C09.iter.single] isNilSlice(req.RangeEnd)
+//@   ensures [C09.iter.dispatch] err == nil && !isNilSlice(req.RangeEnd) ==> seq != nil && seq.sreader == reader && seq.sreq == req
+//@   modifies nothing
+// the unary read takes the first chunk of that same stream
+//@ func rangeLookup#first
+//@   results resp, err
+//@   requires reader != nil && req != nil
+//@   before iter.First[*regattapb.ResponseOp_Range] assert [C09.unary.first] seq != nil && seq.sreader == reader && seq.sreq == req
+//@   modifies nothing
+
 // iteratorLookup: ASSUMED closure-return schema (the stream is the proved iterate$1 closure, or the
 // single-key answer wrapped by iter.From)
 //@ func iteratorLookup
@@ -600,6 +638,7 @@ package fsm
 //@   requires typeIs(l, *regattapb.RequestOp_Range) ==> asType(l, *regattapb.RequestOp_Range) != nil
 //@   requires typeIs(l, IteratorRequest) ==> asType(l, IteratorRequest).RangeOp != nil
 //@   requires typeIs(l, SnapshotRequest) ==> asType(l, SnapshotRequest).Writer != nil
+//@   before iteratorLookup assert [C09.lookup.iter] req == asType(l, IteratorRequest).RangeOp && typeIs(reader, *cpebble.DB) && asType(reader, *cpebble.DB) == p.pebble.v      // the streamed read runs over the live DB with the caller's range operation
 //@   ensures [C02.ro.flag]  err == nil && typeIs(l, *regattapb.TxnRequest) ==> typeIs(out, *regattapb.TxnResponse) && asType(out, *regattapb.TxnResponse) != nil && (asType(out, *regattapb.TxnResponse).Succeeded == (forall j int :: 0 <= j && j < len(asType(l, *regattapb.TxnRequest).Compare) ==> holds(old(p.pebble.v.vP), old(p.pebble.v.vV), asType(l, *regattapb.TxnRequest).Compare[j])))
 //@   ensures [C02.ro.nth]   err == nil && typeIs(l, *regattapb.TxnRequest) ==> len(asType(out, *regattapb.TxnResponse).Responses) == (asType(out, *regattapb.TxnResponse).Succeeded ? len(asType(l, *regattapb.TxnRequest).Success) : len(asType(l, *regattapb.TxnRequest).Failure))
 //@   ensures [C01.lookup.idx]  err == nil && typeIs(l, LocalIndexRequest) ==> typeIs(out, *IndexResponse) && asType(out, *IndexResponse) != nil && asType(out, *IndexResponse).Index == (p.pebble.v.vP[IDX()] ? unle64(p.pebble.v.vV[IDX()]) : 0)
@@ -619,6 +658,7 @@ package fsm
 // ---------------------------------------------------------------- FSM.Open: durable directory switch (C04)
 
 //@ import rp "github.com/jamf/regatta/pebble"
+//@ import cpebble "github.com/cockroachdb/pebble"
 //@ import prometheus "github.com/prometheus/client_golang/prometheus"
 //@ import vfs "github.com/cockroachdb/pebble/vfs"
 
@@ -654,6 +694,8 @@ package fsm
 //@   requires [inv] recoverable(p.fs, p.dirname)
 //@   ensures [C04.open.recoverable] recoverable(p.fs, p.dirname)
 //@   ensures [C04.open.dir] err == nil ==> p.fs.vHas[p.dirname] && isDirP(p.fs, p.dirname)
+// what Open reports to the raft library is the LOCAL applied index stored in the opened DB (entries after it are replayed) - never the leader index
+//@   ensures [C03.open.idx+C04+C05] err == nil ==> p.pebble.v != nil && idx == (p.pebble.v.vP[IDX()] ? unle64(p.pebble.v.vV[IDX()]) : 0)
 //@   modifies p.fs.vHas, p.fs.dHas, p.fs.dCur, p.fs.vCur, p.fs.updName, p.fs.opened, p.pebble.v, world.syncedPath
 
 // ---------------------------------------------------------------- in-cluster snapshots (C08)
